@@ -484,6 +484,35 @@ pub fn lock_variants(t: &T) -> Vec<T> {
     let av = [10u32, 20, 500_000_010];
     let ov = [5u32, 6, 4_194_309];
     let mut out = vec![];
+    // two locks of one kind: every ordered pair from a wider value set (the height/time boundary
+    // 500 000 000, values with bits above the BIP-68 16-bit mask) - "which of the two is the
+    // stricter one" is decided on effective values, not on raw numbers
+    if na + no == 2 && (na == 2 || no == 2) {
+        let wide_a = [10u32, 20, 499_999_999, 500_000_000, 500_000_010];
+        let wide_o = [5u32, 6, 65_541, 65_546, 4_194_309, 4_259_845];
+        let vals: &[u32] = if na == 2 { &wide_a } else { &wide_o };
+        for x in vals {
+            for y in vals {
+                let mut t2 = t.clone();
+                let mut i = 0;
+                fn rec2(t: &mut T, i: &mut usize, x: u32, y: u32) {
+                    match t {
+                        T::After(n) | T::Older(n) => {
+                            *n = if *i == 0 { x } else { y };
+                            *i += 1;
+                        }
+                        _ => {
+                            for c in t.children_mut() {
+                                rec2(c, i, x, y);
+                            }
+                        }
+                    }
+                }
+                rec2(&mut t2, &mut i, *x, *y);
+                out.push(t2);
+            }
+        }
+    }
     let total = 3usize.pow((na + no) as u32);
     for code in 0..total {
         let mut digits = vec![];
@@ -651,6 +680,13 @@ pub fn macro_fragments(tap: bool) -> Vec<T> {
         T::AndV(b(T::Verify(b(T::Check(b(T::PkK("K1".into())))))), b(T::Older(5))),
         T::AndV(b(T::Verify(b(T::Check(b(T::PkK("K1".into())))))), b(sha("H1"))),
     ];
+    // two locks of one kind on one path (boundary and masked values)
+    for (x, y) in [(500_000_000u32, 500_000_010u32), (500_000_010, 500_000_000), (499_999_999, 10)] {
+        v.push(T::AndV(b(T::Verify(b(T::After(x)))), b(T::After(y))));
+    }
+    for (x, y) in [(65_541u32, 10u32), (6, 65_541), (4_259_845, 4_194_310)] {
+        v.push(T::AndV(b(T::Verify(b(T::Older(x)))), b(T::Older(y))));
+    }
     if tap {
         v.push(T::MultiA(2, vec!["K1".into(), "K2".into(), "K3".into()]));
     } else {
@@ -756,6 +792,27 @@ pub fn descriptor_models_ctx(u: &Universe, n_seg: usize, n_shwsh: usize, n_leg: 
                 out.push(D::Tr("KI".into(), vec![(0, t)]));
             }
         }
+    }
+    // the macro fragments one context level up AND guarded by a key (sane descriptors in which a
+    // signature-free macro leg competes with a signed one)
+    // (left out in the lean mode used by the quick tier of C02, whose witness search is the costly part)
+    let lean = n_ctx + 2 <= n_seg && n_seg <= 5;
+    if !lean {
+        let guardk = |f: &T| T::AndV(Box::new(T::Verify(Box::new(T::Check(Box::new(T::PkK("K9".into())))))), Box::new(f.clone()));
+        for f in macro_fragments(false) {
+            for c in in_contexts::<Segwitv0>(&f) {
+                out.push(D::Wsh(guardk(&c)));
+            }
+        }
+        for f in macro_fragments(true) {
+            for c in in_contexts::<Tap>(&f) {
+                out.push(D::Tr("KI".into(), vec![(0, guardk(&c))]));
+            }
+        }
+    }
+    // the internal key of a tr() descriptor reused inside its script tree
+    for t in tap.iter().filter(|t| !lean && t.size() <= 5 && t.keys().iter().any(|k| k == "K1")) {
+        out.push(D::Tr("K1".into(), vec![(0, t.clone())]));
     }
     // wide thresholds (beyond the node bound, fixed shapes): thresh over 3 and 4 children of the
     // usual kinds and k-of-3 / k-of-4 multisigs, every k. Over- and under-satisfaction, the
